@@ -99,6 +99,34 @@ _e2e('C18', 'Mixes of 2-3 transfers with per-transfer faults/cancels followed by
             'transfer or by shutdown without waiting; nothing may happen after shutdown '
             'returns; fault-free neighbours must succeed with their own C01-C03 clauses.')
 
+CLAIMED['C13'] = ('5/C13',
+    'TLC model checking of Bandwidth.tla (exhaustive tiny + simulation) and TLC trace '
+    'validation (Bandwidth_Trace.tla) of real limited streams run in virtual time',
+    'Bandwidth.tla specifies the leaky bucket in integer byte-times with an integer envelope '
+    'of the float moving average; TLC checks the window-rate, one-wait, never-delayed and '
+    'bookkeeping clauses exhaustively for 2 streams and by simulation for 3 streams with '
+    'late wake-ups. 1-8 real BandwidthLimitedStreams on one real LeakyBucket are run as '
+    'cooperative threads in virtual time (read sizes around the threshold, think times, '
+    'failing transfers, late wake-ups); every decision of the real bucket must be a step of '
+    'the specification and the clauses are evaluated on the reconstructed history. Two '
+    'genuine defects (D5, D10) are listed as known findings.',
+    'max_rate = 1 byte per virtual second (exact floats); envelope instead of digit-exact '
+    'EMA; burst allowance 3*(threshold+max read) per stream; end-to-end manager wrapping not '
+    'yet exercised')
+CLAIMED['C14'] = ('5/C14',
+    'TLC model checking of PartPlan.tla on a scaled domain, Apalache symbolic check at real '
+    'scale, TLC trace validation of every real planning function (scaled exhaustively, real '
+    'scale with BigNat limbs) and of end-to-end ranges',
+    'The planning formulas are TLA+ operators; TLC checks tiling / 1..n / limits / '
+    'changed-only-if-required for every (size, chunk) of the scaled domain; Apalache checks '
+    'the same theorems symbolically for sizes up to 5 TiB with the real S3 limits and the '
+    'doubling loop as a state machine; every planning function of the package (all front '
+    'ends) is evaluated over the whole scaled domain and at real-scale boundaries and TLC '
+    'compares each result with the specification (PartPlan_Trace, PartPlanBig_Trace); '
+    'Range/CopySourceRange/part bodies of real transfers are checked by ObsTrace.',
+    'scaled limits (3, 9, 4) stand for (5 MiB, 5 GiB, 10000) in the exhaustive part; float '
+    'division in the code is exact below 2^53')
+
 REASON_TODO = 'check not built yet (build in progress)'
 
 
